@@ -199,6 +199,10 @@ class Normaliser:
         if isinstance(node, ast.Name):
             if isinstance(node.ctx, ast.Load) and node.id not in bound and node.id in env:
                 return env[node.id]
+            if isinstance(node.ctx, ast.Load) and node.id not in bound and node.id in self.helpers and self.depth < 3:
+                lam = self.helper_as_lambda(self.helpers[node.id], env)
+                if lam is not None:
+                    return lam   # a one-sided expression helper used as a value (e.g. handed to setParseAction) is the lambda it spells out
             return node
         if isinstance(node, ast.Constant):
             return node
@@ -250,7 +254,24 @@ class Normaliser:
             red = self.beta(new)
             if red is not None:
                 return red
-        return new
+        return _fold_literal(new)
+
+    def helper_as_lambda(self, helper, env):
+        a = helper.args
+        if a.vararg or a.kwarg or a.kwonlyargs or a.posonlyargs or a.defaults or helper.decorator_list or not _is_simple_helper(helper):
+            return None
+        if not _defined_in(self.fn, helper) and (_free_names(helper) & self.scope):
+            return None
+        params = [p_.arg for p_ in a.args]
+        henv = {k: v for k, v in env.items() if k not in params} if _defined_in(self.fn, helper) else {}
+        self.depth += 1
+        try:
+            body = self._value_of(_body(helper), henv)
+        finally:
+            self.depth -= 1
+        if body is None:
+            return None
+        return ast.Lambda(args=ast.arguments(posonlyargs=[], args=[ast.arg(arg=p_) for p_ in params], vararg=None, kwonlyargs=[], kw_defaults=[], kwarg=None, defaults=[]), body=body)
 
     def beta(self, call):
         """(lambda p, q: body)(a, b) with plain positional parameters and side-effect free arguments is body[p := a, q := b]"""
@@ -782,7 +803,7 @@ class Normaliser:
                 setattr(new, fld, val)
         if getattr(node, "_unpacked_item", False):
             new._unpacked_item = True
-        return new
+        return _fold_literal(new)
 
     def apply_decided(self, e):
         if e is None or not self.decided:
@@ -1154,6 +1175,12 @@ class Normaliser:
         for st in body:
             if isinstance(st, ast.Assign) and len(st.targets) == 1 and isinstance(st.targets[0], ast.Name) and st.targets[0].id == nm:
                 return not any(isinstance(x, ast.Name) and x.id == nm for x in ast.walk(st.value))
+            if isinstance(st, ast.If) and st.orelse and not any(isinstance(x, ast.Name) and x.id == nm for x in ast.walk(st.test)) \
+                    and any(isinstance(x, ast.Name) and x.id == nm for x in ast.walk(st)):
+                # both arms bind it first (an arm that leaves the iteration needs no binding)
+                def arm_ok(arm):
+                    return Normaliser.assigned_first(arm, nm) or (always_leaves(arm) and not any(isinstance(x, ast.Name) and x.id == nm for s_ in arm for x in ast.walk(s_)))
+                return arm_ok(st.body) and arm_ok(st.orelse)
             if any(isinstance(x, ast.Name) and x.id == nm for x in ast.walk(st)):
                 return False
         return False
@@ -2998,6 +3025,25 @@ def _mutated_names(fn, root_of) -> set:
         if isinstance(n, ast.Assign) and len(n.targets) == 1 and isinstance(n.targets[0], ast.Name) and isinstance(n.value, ast.Name):
             alias_stores[n.targets[0].id] += 1
     return {x for x in mutated if not (stores.get(x, 0) > 0 and stores.get(x) == alias_stores.get(x))}
+
+
+def _fold_literal(n):
+    """len / constant subscript of a list or tuple display, comparison of two number literals: their values"""
+    if isinstance(n, ast.Call) and isinstance(n.func, ast.Name) and n.func.id == "len" and len(n.args) == 1 and not n.keywords \
+            and isinstance(n.args[0], (ast.List, ast.Tuple)) and not any(isinstance(e, ast.Starred) for e in n.args[0].elts):
+        return ast.Constant(value=len(n.args[0].elts))
+    if isinstance(n, ast.Subscript) and isinstance(n.value, (ast.List, ast.Tuple)) and isinstance(n.slice, ast.Constant) and isinstance(n.slice.value, int) \
+            and not isinstance(n.slice.value, bool) and not any(isinstance(e, ast.Starred) for e in n.value.elts) and -len(n.value.elts) <= n.slice.value < len(n.value.elts) \
+            and isinstance(n.ctx, ast.Load):
+        return n.value.elts[n.slice.value]
+    if isinstance(n, ast.Compare) and len(n.ops) == 1 and isinstance(n.left, ast.Constant) and isinstance(n.comparators[0], ast.Constant):
+        a, b = n.left.value, n.comparators[0].value
+        if isinstance(a, (int, float)) and isinstance(b, (int, float)) and not isinstance(a, bool) and not isinstance(b, bool):
+            op = type(n.ops[0])
+            table = {ast.Eq: a == b, ast.NotEq: a != b, ast.Lt: a < b, ast.LtE: a <= b, ast.Gt: a > b, ast.GtE: a >= b}
+            if op in table:
+                return ast.Constant(value=table[op])
+    return n
 
 
 def _may_alias(e) -> set:
